@@ -23,6 +23,7 @@ package main
 
 import (
 	"os"
+	"time"
 	"context"
 	"encoding/json"
 	"fmt"
@@ -375,7 +376,8 @@ func runC17(c0 *Ctx) {
 		}
 	}
 	if c0.Want("crash") {
-		nh := c0.N(40, 1200)
+		nh := c0.N(30, 1200)
+		deadline := time.Now().Add(time.Duration(c0.N(55, 700)) * time.Second)
 		type job struct {
 			hist []StoreOp
 			k    int
@@ -406,6 +408,10 @@ func runC17(c0 *Ctx) {
 		}
 		c0.Sample(map[string]any{"history": hists[len(fixed)], "crash_points": "1..ops+1"})
 		ParallelDo(len(jobs), c17Workers, func(i int) {
+			if !time.Now().Before(deadline) {
+				c.Stat("crash:skipped-deadline")
+				return
+			}
 			cs := &c17Case{Hist: jobs[i].hist, K: jobs[i].k}
 			c17Run(c, cs)
 			b, _ := json.Marshal(cs)
